@@ -127,8 +127,17 @@ def check_case(rep, c: dict):
     el = s.reshape((n_el,) + e)
     ell = sl.reshape((n_el,) + e)
     lls = ll.reshape((n_el,))
-    flat_el = el.reshape(n_el, -1)
-    if n_el > 1 and len({tuple(r) for r in flat_el.round(12).tolist()}) != n_el:
+    # the randomness behind each element: for a transformed distribution, the base draw recovered with the public
+    # bijection under the designated condition slice (so that a shared key is visible even when the conditions differ)
+    noise = el
+    if hasattr(d, "bijection") and cs is not None:
+        try:
+            noise = np.stack([np.asarray(d.bijection.inverse(jnp.asarray(el[kk]), jnp.asarray(cslices[ci])))
+                              for kk, (_ki, ci) in enumerate(c["sample_map"])])
+        except Exception:  # noqa: BLE001
+            noise = el
+    flat_el = noise.reshape(n_el, -1)
+    if n_el > 1 and len({tuple(r) for r in flat_el.round(9).tolist()}) != n_el:
         rep.violation({**key, "what": "repeated draws"},
                       f"sample: {desc}: the {n_el} elements of one batched sample are not pairwise distinct "
                       f"(shared randomness): {flat_el[:4].tolist()}", {"case": c})
